@@ -162,3 +162,66 @@ Proof. vm_compute. repeat split; reflexivity. Qed.
 Definition kw_words_of (o : option (list bytes)) : list bytes :=
   match o with Some l => filter (fun w => negb (is_response_code w)) l | None => [] end.
 Definition kw_spelled_words : list bytes := kw_words_of kw_spelled.
+
+(* ---------------------------------------------------------------------------------------------- *)
+(* LIFTED to the semantics (proofs/TM_Keyword.v): a per-state spelling typing - for every state inside a keyword, the
+   bytes read since KeywordBegin, as byte sets position by position - is inferred by evaluation (untrusted) and checked
+   against every (state, byte, reachable leaf) by KeywordCheck.spell_ok; the invariant "while a KeywordBegin is pending
+   or open, the data bytes from its position to the read position are those the state has spelled" is carried through
+   dispatch / drain / Next / scan. *)
+From JV.model Require Import KeywordCheck.
+From JV.proofs Require Import TM_Events TM_Loop ScanTheorems TM_Keyword.
+
+Definition kw_known (w : bytes) : bool := is_word_keyword w || is_response_code w.
+
+Definition gen_spell_tbl : list (option spelling) := Eval vm_compute in infer_spell gen_typing.
+Definition gen_spell : state -> option spelling := sp_row gen_spell_tbl.
+
+Lemma gen_spell_ok : spell_ok gen_typing gen_spell kw_known = true.
+Proof. vm_compute. reflexivity. Qed.
+
+Lemma existsb_map_filter {A} (f : A -> bytes) (p : A -> bool) (l : list A) (w : bytes) :
+  existsb (beq w) (map f (filter p l)) = true -> exists k, p k = true /\ w = f k.
+Proof.
+  induction l as [|x l IH]; simpl; [discriminate|].
+  destruct (p x) eqn:Ep; simpl; [|exact IH].
+  intros H. apply orb_true_iff in H. destruct H as [H|H]; [|exact (IH H)].
+  exists x. split; [exact Ep | apply beq_eq; exact H].
+Qed.
+
+(* conversion hint only: unfold these before the library functions they are made of (otherwise the kernel compares
+   the 29-keyword disjunction branch by branch, which is exponential) *)
+Strategy expand [kw_known is_word_keyword word_keywords].
+
+Lemma is_word_keyword_spec w : is_word_keyword w = true ->
+  exists k, kind_eqb k KHTTPResponseCode = false /\ w = kind_keyword k.
+Proof.
+  intros E.
+  destruct (existsb_map_filter kind_keyword (fun k => negb (kind_eqb k KHTTPResponseCode)) all_kinds w E) as (k & Hk & Ew).
+  exists k. split; [apply negb_true_iff; exact Hk | exact Ew].
+Qed.
+
+Lemma kw_known_spec w : kw_known w = true ->
+  (exists k, kind_eqb k KHTTPResponseCode = false /\ w = kind_keyword k) \/ is_response_code w = true.
+Proof.
+  intros H. apply orb_prop in H. destruct H as [H|H]; [left; apply is_word_keyword_spec; exact H | right; exact H].
+Qed.
+
+Theorem keywords_spelled_lemma jsc_len enum_len data :
+  len_sane jsc_len -> len_sane enum_len -> Forall isb data ->
+  forall l, In l (scan_lexemes jsc_len enum_len data) -> lk l = LKeyword ->
+  (exists k, kind_eqb k KHTTPResponseCode = false /\ lex_bytes data l = kind_keyword k) \/
+  is_response_code (lex_bytes data l) = true.
+Proof.
+  intros H1 H2 H3 l Hin Hk. apply kw_known_spec.
+  exact (scan_keywords_generic gen_typing gen_spell kw_known jsc_len enum_len data
+           gen_table_ok gen_spell_ok H1 H2 H3 l Hin Hk).
+Qed.
+
+(* non-vacuity: the keyword lexemes of a small input and their bytes *)
+Example keywords_spelled_example :
+  let data := bs "URL /a" ++ [10] ++ bs "  GET" ++ [10] ++ bs "    200 any" ++ [10] ++ bs "Description" ++ [10] ++ bs " x" ++ [10] in
+  map (lex_bytes data) (filter (fun l => lexkind_eqb (lk l) LKeyword)
+                               (scan_lexemes (fun _ => LenOk 0) (fun _ => LenOk 0) data)) =
+  [bs "URL"; bs "GET"; bs "200"; bs "Description"].
+Proof. vm_compute. reflexivity. Qed.
